@@ -153,3 +153,62 @@ func Try(f func()) (ok bool, msg any) {
 	f()
 	return true, nil
 }
+
+// ---- curved lattice paths (spec/CurvedOps.tla) ------------------------------------------------------------------
+
+// CSeg is one cubic segment of a curved contour: it starts at P, has control points C1, C2 and ends at the P of the
+// next segment of the (closed) contour.
+type CSeg struct {
+	P  [2]int `json:"p"`
+	C1 [2]int `json:"c1"`
+	C2 [2]int `json:"c2"`
+}
+type CContour []CSeg
+type CPath []CContour
+
+// BuildCurved constructs the real path: MoveTo, CubeTo..., Close per contour.
+func BuildCurved(p CPath, e Emb) *canvas.Path {
+	out := &canvas.Path{}
+	for _, c := range p {
+		for i, s := range c {
+			x, y := e.Map(float64(s.P[0]), float64(s.P[1]))
+			if i == 0 {
+				out.MoveTo(x, y)
+			}
+			n := c[(i+1)%len(c)].P
+			x1, y1 := e.Map(float64(s.C1[0]), float64(s.C1[1]))
+			x2, y2 := e.Map(float64(s.C2[0]), float64(s.C2[1]))
+			x3, y3 := e.Map(float64(n[0]), float64(n[1]))
+			_ = x
+			_ = y
+			out.CubeTo(x1, y1, x2, y2, x3, y3)
+		}
+		out.Close()
+	}
+	return out
+}
+
+func (p CPath) SVG() string {
+	var b strings.Builder
+	for _, c := range p {
+		for i, s := range c {
+			if i == 0 {
+				fmt.Fprintf(&b, "M%d %d", s.P[0], s.P[1])
+			}
+			n := c[(i+1)%len(c)].P
+			fmt.Fprintf(&b, "C%d %d %d %d %d %d", s.C1[0], s.C1[1], s.C2[0], s.C2[1], n[0], n[1])
+		}
+		b.WriteString("z")
+	}
+	return b.String()
+}
+
+// CurvedEmbeddings: the library flattens curves with an absolute tolerance (0.01), so curved scenarios are embedded at
+// large scales only, where that tolerance is far below the distance of any decided sample from a piece hull.
+var CurvedEmbeddings = []Emb{
+	{"scale1e4", 1e4, 0, 0, 1e4, 0, 0},
+	{"scale1e4-rot90", 0, -1e4, 1e4, 0, 0, 0},
+	{"scale1e4-flipx", -1e4, 0, 0, 1e4, 0, 0},
+	{"scale1e4-transpose", 0, 1e4, 1e4, 0, 0, 0},
+	{"scale5e3-rot-3-4-5", 4e3, -3e3, 3e3, 4e3, 250.5, -100.25},
+}
